@@ -8,6 +8,7 @@ reference evaluator under every admissible reading.
 import argparse
 import copy
 import os
+import signal
 import subprocess
 import sys
 import time
@@ -18,8 +19,8 @@ PROP = 'C08'
 
 TIERS = {
     # runs, shuffles per input, valuations per input, wall cap of the batch (s)
-    'quick': dict(runs=46000, shuffles=2, valuations=20, wall=75, hashseed_slices=1),
-    'thorough': dict(runs=400000, shuffles=6, valuations=44, wall=1500, hashseed_slices=3),
+    'quick': dict(runs=40000, shuffles=2, valuations=20, wall=150, hashseed_slices=1),
+    'thorough': dict(runs=400000, shuffles=6, valuations=44, wall=2400, hashseed_slices=3),
 }
 
 ###############################################################################
@@ -172,6 +173,48 @@ def judge_valuation(orig, simp, envd):
     return detail, 'violation'
 
 
+def exact_mismatch(want, simp_expr):
+    """The simplified form of an exactly determined constant, if it is a literal, must be that constant."""
+    if type(simp_expr).__name__ != 'HplLiteral':
+        return None  # not folded: the valuations below judge it
+    got = simp_expr.value
+    if isinstance(got, str) or isinstance(got, bool) != isinstance(want, bool):
+        return None  # a kind change is the tolerant oracle's (and the type check's) business
+    if got != want:
+        return 'the input denotes exactly %r, the simplified form is the literal %r' % (want, got)
+    return None
+
+
+def const_subterms(term):
+    """Maximal reference-free operator / call subterms of a term that does contain references."""
+    out = []
+    stack = [term]
+    while stack:
+        t = stack.pop()
+        if t[0] in ('bin', 'un', 'call') and not gen.has_reference(t) and not gen.contains(t, 'callv'):
+            out.append(t)
+            continue
+        stack.extend(c for _s, c in reversed(gen.children_of(t)))
+    return out
+
+
+def judge_const_subterm(sub, count):
+    """A constant subexpression is an input in its own right."""
+    from hpl.rewrite import simplify
+    try:
+        ex = refeval.exact_constant(build.build_expr(sub))
+        if ex is None:
+            return None
+        count('exact_constant_subterms')
+        out = simplify(build.build_expr(sub))
+    except RecursionError:
+        return None
+    except Exception:
+        return None  # raising on this subterm shows in the whole input too, where it is classified
+    bad = exact_mismatch(ex[1], out)
+    return ('subexpression %s: ' % out.__class__.__name__ + bad + ' [%s]' % gen.render(sub)) if bad else None
+
+
 def revalidate(out):
     """Every node of the output must survive its own constructor's validators again."""
     import attrs
@@ -203,6 +246,9 @@ def execute(sc, stats=None, only_policy=None, only_vals=None, real_set=False, tr
     count('inputs')
     in_text = str(probe)
     in_type = None if kind == 'pred' else probe.data_type
+    # the reference tree: built once, never handed to the library, only read by the evaluators
+    ref_expr = root_expr(kind, build_input(kind, term))
+    ref_exact = refeval.exact_constant(ref_expr)
     valuations = sc['valuations'] if only_vals is None else [sc['valuations'][i] for i in only_vals]
     policies = list(enumerate(sc['policies']))
     if only_policy is not None:
@@ -246,8 +292,8 @@ def execute(sc, stats=None, only_policy=None, only_vals=None, real_set=False, tr
                                'text': in_text, 'real_set': real_set})
 
         if exc is not None:
-            # fresh tree for the classification (the failed call may have narrowed `inp`)
-            ref = root_expr(kind, build_input(kind, term))
+            # the reference tree for the classification (the failed call may have narrowed `inp`)
+            ref = ref_expr
             if const_subexprs_undefined(ref):
                 count('raised_undefined_constant')
                 continue
@@ -291,8 +337,24 @@ def execute(sc, stats=None, only_policy=None, only_vals=None, real_set=False, tr
         if str(out) != in_text:
             changed_any = True
             count('outputs_changed')
-        # --- meaning. The original is re-built so that nothing simplify did to `inp` can leak in.
-        ref_expr = root_expr(kind, build_input(kind, term))
+        # --- exactly determined constants (no tolerance applies: nothing is reordered or iterated)
+        ex = ref_exact
+        if ex is not None:
+            count('exact_constant_inputs')
+            bad = exact_mismatch(ex[1], simp_expr)
+            if bad:
+                viol('constant', bad)
+                continue
+        elif pi == policies[0][0]:
+            bad = None
+            for sub in const_subterms(term)[:3]:
+                bad = judge_const_subterm(sub, count)
+                if bad:
+                    break
+            if bad:
+                viol('constant', bad)
+                continue
+        # --- meaning, against the reference tree (nothing simplify did to `inp` can leak in)
         for vi, envd in enumerate(valuations):
             d, tag = judge_valuation(ref_expr, simp_expr, envd)
             if trace is not None:
@@ -337,9 +399,21 @@ def _install_probe():
     return hits
 
 
+RUN_HANG_S = 60.0
+
+
+class RunHang(BaseException):
+    """One run took more than RUN_HANG_S of real time (a harness guard, not part of the simulation)."""
+
+
+def _on_alarm(_sig, _frm):
+    raise RunHang()
+
+
 def worker(job):
     cfg = job['cfg']
     hits = _install_probe()
+    signal.signal(signal.SIGALRM, _on_alarm)
     stats = {}
     found = []
     digests = []
@@ -348,14 +422,26 @@ def worker(job):
     changed_texts = set()
     samples = []
     for idx in job['indices']:
-        if time.monotonic() - t0 > job['wall']:
+        if time.monotonic() > job['deadline']:  # one deadline for the whole batch (CLOCK_MONOTONIC is system-wide)
             stats['runs_skipped_for_time'] = stats.get('runs_skipped_for_time', 0) + 1
             continue
         seed = core.derive(job['master'], PROP, idx)
         sc = gen_scenario(seed, cfg)
         before = stats.get('inputs_changed', 0)
         tr = []
-        vs = execute(sc, stats, real_set=job.get('real_set', False), trace=tr)
+        signal.setitimer(signal.ITIMER_REAL, RUN_HANG_S)
+        try:
+            vs = execute(sc, stats, real_set=job.get('real_set', False), trace=tr)
+        except RunHang:
+            # not a verdict on C08 (which is about the result, not the running time): counted,
+            # listed in the evidence, and the batch goes on
+            stats['runs_hung'] = stats.get('runs_hung', 0) + 1
+            stats.setdefault('hung_samples', [])
+            if len(stats['hung_samples']) < 3:
+                stats['hung_samples'].append(gen.render(sc['term']) if not gen.contains(sc['term'], 'callv') else repr(sc['term']))
+            continue
+        finally:
+            signal.setitimer(signal.ITIMER_REAL, 0)
         stats['runs'] = stats.get('runs', 0) + 1
         txt = repr(sc['term'])
         texts.add(txt)
@@ -508,7 +594,7 @@ def run_batch(tier, master, real_set=False, runs=None, offset=0, nproc=None):
     nruns = max(16, int(cfg['runs'] * scale))
     nproc = nproc or int(os.environ.get('HPLSIM_NPROC', '0')) or min(16, os.cpu_count() or 1)
     indices = list(range(offset, offset + nruns))
-    jobs = [{'cfg': cfg, 'indices': ch, 'master': master, 'wall': cfg['wall'], 'real_set': real_set}
+    jobs = [{'cfg': cfg, 'indices': ch, 'master': master, 'deadline': time.monotonic() + cfg['wall'], 'real_set': real_set}
             for ch in core.chunk(indices, nproc * 4)]
     return cfg, core.run_pool(worker, jobs, nproc=nproc, wall_cap=cfg['wall'] + 240)
 
@@ -562,7 +648,9 @@ def main(argv):
     perms = set()
     for r in results:
         perms.update((n, tuple(p)) for n, p in r.get('perms', ()))
-        core.merge_counts(stats, {k: v for k, v in r['stats'].items() if k != 'reject_samples'})
+        core.merge_counts(stats, {k: v for k, v in r['stats'].items() if k not in ('reject_samples', 'hung_samples')})
+        if r['stats'].get('hung_samples'):
+            stats['hung_samples'] = (stats.get('hung_samples', []) + r['stats']['hung_samples'])[:5]
         found.extend(r['violations'])
         lines.update(r['lines'])
         distinct_inputs += r['distinct_inputs']
@@ -681,6 +769,8 @@ def main(argv):
         'simplifier_lines_never_hit': sorted(allx - lines)[:80],
         'real_set_hashseed_slices': slice_info,
         'runs_skipped_for_time': stats.get('runs_skipped_for_time', 0),
+        'runs_abandoned_after_%ds_real_time' % int(RUN_HANG_S): {'count': stats.get('runs_hung', 0), 'inputs': stats.get('hung_samples', [])},
+        'exactly_determined_constants': {'whole_inputs': stats.get('exact_constant_inputs', 0), 'constant_subexpressions': stats.get('exact_constant_subterms', 0)},
         'pythonhashseed': os.environ.get('PYTHONHASHSEED'),
         'real_vs_stub': {'real': ['hpl.rewrite.simplify and everything below it', 'hpl.parser', 'hpl.ast'],
                          'stub_or_model': ['reference evaluator (oracle)', 'SimSet iteration-order seam', 'valuation grid']},
@@ -688,7 +778,8 @@ def main(argv):
     }
     assumptions = [
         'semantics of operators/functions as tabulated in hplsim/refeval.py; where the docs are silent a violation must hold under every admissible reading (strict / short-circuit / Kleene connectives); a set literal denotes a set (each value once)',
-        'valuations where a comparison lands within 1e-9..1e-6 relative distance are skipped as numerically fragile',
+        'valuations where a comparison lands within 1e-9..1e-6 relative distance are skipped as numerically fragile; so is a comparison that looks exact but rests on the sum or product of three or more set elements with an inexact float among them (the order of the additions is open)',
+        'a reference-free input or subexpression made only of number literals, arithmetic, comparisons, connectives and single-valued functions denotes exactly the number Python int / IEEE double arithmetic gives bottom-up; its folded literal must equal it exactly',
         'INF/NAN constants, str(), bool/int/float of strings, ranges with lower bound above upper bound or non-integer bounds under aggregation are outside the judged workload (unspecified)',
         'hash-order nondeterminism is explored only at the three set() sites of hpl.rewrite (via SimSet) and through per-slice PYTHONHASHSEED variation',
     ]
